@@ -37,6 +37,9 @@ type LinkCase struct {
 	// of the FIRST update, the following updates are answered promptly
 	Pos   int  `json:"pos"`
 	Dense bool `json:"dense"`
+	// Cross: two subscribers; the peer named by Iface holds its answers to subscriber A for 2 s (well within the
+	// time-out) while subscriber B's update starts 0.7 s after A's: each must act on its own answers
+	Cross bool `json:"cross"`
 }
 
 // DensePos reports whether the fates are to be laid over consecutive rating requests of one update.
@@ -50,6 +53,19 @@ type scriptedPeer struct {
 	log     []int
 	answers []int
 	amounts map[int]uint64 // abmf: requested amount of peer request n
+	who     map[int]string // peer request n -> subscription id data of the request
+	slowFor map[string]time.Duration // answers to this subscriber's requests are held that long (within the time-out)
+}
+
+// note records which subscriber peer request n (the next one) belongs to and returns the hold time for it.
+func (p *scriptedPeer) note(sub string) time.Duration {
+	p.mu.Lock()
+	defer p.mu.Unlock()
+	if p.who == nil {
+		p.who = map[int]string{}
+	}
+	p.who[p.count+1] = sub
+	return p.slowFor[sub]
 }
 
 func (p *scriptedPeer) arrive(answerN func(n int)) (n int) {
@@ -156,7 +172,13 @@ func startScriptedPeersF(addrRf, addrAb, pem, key string, faults *peerFaults) (r
 	rmux.HandleFunc("SUR", func(c diam.Conn, m *diam.Message) {
 		var sur charging_datatype.ServiceUsageRequest
 		_ = m.Unmarshal(&sur)
+		subR := ""
+		if sur.SubscriptionId != nil {
+			subR = string(sur.SubscriptionId.SubscriptionIdData)
+		}
+		holdR := rfp.note(subR)
 		rfp.arrive(func(n int) {
+			time.Sleep(holdR)
 			sua := charging_datatype.ServiceUsageResponse{
 				SessionId: sur.SessionId, EventTimestamp: datatype.Time(time.Now()),
 				ServiceRating: &charging_datatype.ServiceRating{
@@ -189,7 +211,13 @@ func startScriptedPeersF(addrRf, addrAb, pem, key string, faults *peerFaults) (r
 		}
 		abp.amounts[abp.count+1] = asked
 		abp.mu.Unlock()
+		subA := ""
+		if ccr.SubscriptionId != nil {
+			subA = string(ccr.SubscriptionId.SubscriptionIdData)
+		}
+		holdA := abp.note(subA)
 		abp.arrive(func(n int) {
+			time.Sleep(holdA)
 			cca := charging_datatype.AccountDebitResponse{
 				SessionId: ccr.SessionId, OriginHost: ccr.DestinationHost, OriginRealm: ccr.DestinationRealm,
 				CcRequestType: ccr.CcRequestType, CcRequestNumber: ccr.CcRequestNumber, EventTimestamp: datatype.Time(time.Now()),
@@ -258,6 +286,10 @@ func RunLink(prefix, in, out string) error {
 		return fmt.Errorf("scripted peers did not come up")
 	}
 	for ci, c := range cases {
+		if c.Cross {
+			runCross(env, rfp, abp, prefix, ci, c, w)
+			continue
+		}
 		supi := fmt.Sprintf("imsi-%s%d", prefix, ci+1)
 		body := fmt.Sprintf(`{"subscriberIdentifier":%q,"nfConsumerIdentification":{"nFName":"smf","nodeFunctionality":"SMF"},"invocationSequenceNumber":1,"chargingId":3}`, supi)
 		hr := env.Do("POST", "/nchf-convergedcharging/v3/chargingdata", []byte(body), nil, 10*time.Second)
@@ -359,6 +391,101 @@ func RunLink(prefix, in, out string) error {
 	return nil
 }
 
+// runCross: see LinkCase.Cross.
+func runCross(env *Env, rfp, abp *scriptedPeer, prefix string, ci int, c LinkCase, w *bufio.Writer) {
+	type side struct {
+		supi, ref string
+		status    int
+		timeout   bool
+		ms        int64
+		granted   int
+		resBefore int64
+		resAfter  int64
+	}
+	sides := []*side{{supi: fmt.Sprintf("imsi-%s%d7", prefix, ci+1)}, {supi: fmt.Sprintf("imsi-%s%d8", prefix, ci+1)}}
+	for _, sd := range sides {
+		body := fmt.Sprintf(`{"subscriberIdentifier":%q,"nfConsumerIdentification":{"nFName":"smf","nodeFunctionality":"SMF"},"invocationSequenceNumber":1,"chargingId":3}`, sd.supi)
+		hr := env.Do("POST", "/nchf-convergedcharging/v3/chargingdata", []byte(body), nil, 10*time.Second)
+		if i := strings.LastIndex(hr.Location, "/"); i >= 0 {
+			sd.ref = hr.Location[i+1:]
+		}
+	}
+	slow := abp
+	if c.Iface == "rating" {
+		slow = rfp
+	}
+	slow.mu.Lock()
+	slow.slowFor = map[string]time.Duration{sides[0].supi[5:]: 2 * time.Second}
+	slow.mu.Unlock()
+	rfp.mu.Lock()
+	abp.mu.Lock()
+	r0, a0 := rfp.count, abp.count
+	abp.mu.Unlock()
+	rfp.mu.Unlock()
+	var wg sync.WaitGroup
+	for k, sd := range sides {
+		wg.Add(1)
+		go func(k int, sd *side) {
+			defer wg.Done()
+			time.Sleep(time.Duration(k) * 700 * time.Millisecond)
+			if ue, ok := chf_context.GetSelf().ChfUeFindBySupi(sd.supi); ok {
+				sd.resBefore = ue.ReservedQuota[1]
+			}
+			upd := fmt.Sprintf(`{"subscriberIdentifier":%q,"invocationSequenceNumber":2,"multipleUnitUsage":[{"ratingGroup":1,"requestedUnit":{"totalVolume":100000},"usedUnitContainer":[{"quotaManagementIndicator":"ONLINE_CHARGING","totalVolume":0,"localSequenceNumber":%d}]}]}`, sd.supi, k+1)
+			t0 := time.Now()
+			res := env.Do("POST", "/nchf-convergedcharging/v3/chargingdata/"+sd.ref+"/update", []byte(upd), nil, 45*time.Second)
+			sd.ms = time.Since(t0).Milliseconds()
+			sd.status, sd.timeout = res.Status, res.Timeout
+			sd.granted = -1
+			var rb struct {
+				M []struct {
+					G *struct {
+						T int `json:"totalVolume"`
+					} `json:"grantedUnit"`
+				} `json:"multipleUnitInformation"`
+			}
+			if json.Unmarshal([]byte(res.Body), &rb) == nil && len(rb.M) > 0 && rb.M[0].G != nil {
+				sd.granted = rb.M[0].G.T
+			}
+			if ue, ok := chf_context.GetSelf().ChfUeFindBySupi(sd.supi); ok {
+				sd.resAfter = ue.ReservedQuota[1]
+			}
+		}(k, sd)
+	}
+	wg.Wait()
+	slow.mu.Lock()
+	slow.slowFor = nil
+	slow.mu.Unlock()
+	own := func(p *scriptedPeer, from int, sub string) []int {
+		p.mu.Lock()
+		defer p.mu.Unlock()
+		out := []int{}
+		for n := from + 1; n <= p.count; n++ {
+			if p.who[n] == sub {
+				out = append(out, n)
+			}
+		}
+		return out
+	}
+	var out []any
+	for _, sd := range sides {
+		usedAb, usedRf := -1, -1
+		if d := sd.resAfter - sd.resBefore; d > 0 && d%1000 == 0 {
+			usedAb = int(d / 1000)
+		} else if d != 0 {
+			usedAb = -3
+		}
+		if sd.granted >= 0 {
+			usedRf = sd.granted - 100
+		}
+		out = append(out, map[string]any{"finished": !sd.timeout, "status": sd.status, "ms": sd.ms, "usedAbmf": usedAb, "usedRating": usedRf,
+			"own": map[string]any{"abmf": own(abp, a0, sd.supi[5:]), "rating": own(rfp, r0, sd.supi[5:])}})
+	}
+	b, _ := json.Marshal(map[string]any{"trace": c.ID, "seq": ci, "action": "cross", "iface": c.Iface, "sides": out})
+	_, _ = w.Write(b)
+	_ = w.WriteByte('\n')
+}
+
 func seqRange(a, b int) []int {
 	out := []int{}
 	for i := a; i <= b; i++ {
@@ -377,6 +504,8 @@ type LeakCase struct {
 	NoAcct  bool   `json:"noAcct"`  // every update also names a rating group without account / tariff (never answered)
 	// PeerFault: "" = the real servers; "slowcea" / "dropaftercea" = scripted peers with that connection-level fault
 	PeerFault string `json:"peerFault"`
+	// NewSubs: every update of the measured phase is the first one of a subscriber the CHF has not seen before
+	NewSubs bool `json:"newSubs"`
 }
 
 func establishedTo(ports ...int) int {
@@ -462,6 +591,24 @@ func RunLeak(prefix, in, out string) error {
 		for i := 0; i < c.N; i++ {
 			s := i % c.Subs
 			final := c.FinalAt > 0 && (i+1)%c.FinalAt == 0
+			if c.NewSubs {
+				supi := fmt.Sprintf("imsi-%s%d9%03d", prefix, ci, i)
+				env.PutAccount(supi, 1, "2000000000", "1")
+				body := fmt.Sprintf(`{"subscriberIdentifier":%q,"nfConsumerIdentification":{"nFName":"smf","nodeFunctionality":"SMF"},"invocationSequenceNumber":1,"chargingId":3}`, supi)
+				hr := env.Do("POST", "/nchf-convergedcharging/v3/chargingdata", []byte(body), nil, 10*time.Second)
+				ref := ""
+				if k := strings.LastIndex(hr.Location, "/"); k >= 0 {
+					ref = hr.Location[k+1:]
+				}
+				if st := leakUpdate(env, supi, ref, 2, final, false); st != 200 {
+					bad++
+				}
+				if i < 10 || (i+1)%10 == 0 || i == c.N-1 {
+					time.Sleep(60 * time.Millisecond)
+					samples = append(samples, map[string]any{"i": i + 1, "conns": establishedTo(env.RfPort, env.AbPort), "tasks": runtime.NumGoroutine() - base})
+				}
+				continue
+			}
 			st := leakUpdate(env, supis[s], refs[s], i+2, final, c.NoAcct)
 			if st != 200 && !faulty {
 				bad++
